@@ -36,6 +36,7 @@ From MV Require Import Proofs.CodecV5RT.
 From MV Require Import Proofs.CodecV5Order.
 From MV Require Import Proofs.CodecV5Layout.
 From MV Require Import Proofs.CodecV5Succ.
+From MV Require Import Proofs.CodecV5Enough.
 From MV Require Import Proofs.CodecV5Total.
 From MV Require Import Proofs.SniffProofs.
 
@@ -127,6 +128,38 @@ Theorem C09_v5_else_oversize :
          encodev c (EPacket p) = ([], Err EE_OverMaxPacketSize, c).
 Proof. exact CodecV5Limit.v5_else_oversize. Qed.
 Print Assumptions C09_v5_else_oversize.
+
+(* v5, the converse for the acknowledgements that carry a list of reason codes after their properties (SUBACK,
+   UNSUBACK): leaving out the diagnostics IS enough whenever the packet without them fits -- the size computed for
+   the full packet is then within the limit too (the reason codes come off the budget of the diagnostics) ... *)
+Theorem C09_v5_list_ack_shortening_enough :
+  forall (p : packet) (L : N),
+         L <= VI_MAX -> list_ack p = true ->
+         packet_encoded_size (drop_diag p) L <= L -> packet_encoded_size p L <= L.
+Proof. exact CodecV5Enough.v5_list_ack_shortening_enough. Qed.
+Print Assumptions C09_v5_list_ack_shortening_enough.
+
+(* ... so such a packet is never refused for its diagnostics *)
+Theorem C09_v5_list_ack_sent :
+  forall (c : ecodec) (p : packet),
+         ec_encoding_payload c = None -> enc_ok p = true -> list_ack p = true ->
+         let q := effective c p in
+         packet_encoded_size (drop_diag q) (max_size_of c) <= max_size_of c ->
+         check_frame_size c (packet_encoded_size q (max_size_of c)) = Ok tt ->
+         exists w, encodev c (EPacket p) = ((w, Ok tt), c).
+Proof. exact CodecV5Enough.v5_list_ack_sent. Qed.
+Print Assumptions C09_v5_list_ack_sent.
+
+(* non-vacuity: UNSUBACK, 4 reason codes, 20-byte reason string, peer maximum 34 (size limit 29): the premises
+   hold and the packet goes out without its reason string (the input of seeded/C09g) *)
+Example C09_list_ack_nonvacuous :
+  let p := UnsubscribeAck (mkUnsubscribeAck 256 [] (Some (repeat 114 20)) [0; 17; 128; 131]) in
+  let c := set_max_outbound_size ecodec_new 34 in
+  enc_ok p = true /\ list_ack p = true /\ ec_encoding_payload c = None /\
+  packet_encoded_size (drop_diag (effective c p)) (max_size_of c) = 7 /\ max_size_of c = 29 /\
+  check_frame_size c (packet_encoded_size (effective c p) (max_size_of c)) = Ok tt /\
+  encodev c (EPacket p) = (([176; 7; 1; 0; 0; 0; 17; 128; 131], Ok tt), c).
+Proof. vm_compute. repeat split; reflexivity. Qed.
 
 (* v5: after a CONNECT that declines problem information acknowledgements carry neither *)
 Theorem C09_v5_no_problem_info :
